@@ -3,6 +3,8 @@ import TTV.Model.Describe
 import TTV.Model.TextRepr
 import TTV.Spec.C07
 import TTV.Props.C06
+import TTV.Model.MatchSkel
+import TTV.Generated.MatchSrc
 import Mathlib.Data.List.Nodup
 /-! # C07 — mismatches are always describable; assertThat / expectThat report them faithfully
 
@@ -1193,5 +1195,35 @@ example : (assertModel { api := .expectThat, existing := [], mismatch := some []
 example : (assertModel { api := .expectThat, existing := [], mismatch := some [], after := .skip, cleanups := [.interrupt] })
     = { raised := false, continued := true, names := [⟨0, 0⟩], forceFailure := true, outcome := .error, propagated := true } := by decide
 example : (assertModel { api := .expectThat, existing := [], mismatch := none, after := .skip }).outcome = .skip := by decide
+
+end TTV.Props.C07
+
+/-! # source ties (C07): `_impl.py`, `testcase.py`, `assertions.py` as found in the tree -/
+namespace TTV.Props.C07
+open TTV.Matchers hiding Input Trace model
+open TTV.Describe TTV.MatchSkel TTV.Generated
+
+/-- `Mismatch.__init__` keeps a description that `is not None` (an empty one too), `describe()` returns it and raises
+`NotImplementedError` only when none was given, `get_details()` returns the details, `MismatchDecorator` forwards both;
+`MismatchError.__str__`: describe first; verbose: `text_repr(matchee, multiline=False)` for str / bytes, `repr` otherwise,
+interpolated in the order matchee, matcher, difference; terse: the difference alone -/
+theorem C07_src_mismatch : MatchSrc.mismatch = refMismatch ∧ MatchSrc.mismatchErrorStr = refErrStr := by decide
+
+/-- `_matchHelper`, `assertThat`, `expectThat`, `addDetailUniqueName` and `assert_that` as found in the source -/
+theorem C07_src_assert_skel : MatchSrc.assertFamily = refAssert := by decide
+
+/-- … and the model of the three entry points (raised?, detail names afterwards, forced failure) is their interpretation -/
+theorem C07_src_assert (a : AssertIn) :
+    assertI MatchSrc.assertFamily a = ((assertModel a).raised, (assertModel a).names, (assertModel a).forceFailure) := by
+  rw [C07_src_assert_skel]
+  unfold assertI assertModel
+  cases hm : a.mismatch <;> cases ha : a.api <;>
+    simp [refAssert, ResTest.holds, assertI.mismatched']
+
+/-- the loops that the description model replays (`descrParts`) are the loops of the source: the same arms decide
+which sub-mismatches are collected (and therefore described) -/
+theorem C07_src_described_parts : MatchSrc.matchesAll = refAll ∧ MatchSrc.matchesAny = refAny ∧
+    MatchSrc.allMatch = refAllMatch ∧ MatchSrc.anyMatch = refAnyMatch ∧ MatchSrc.matchesListwise = refListwise ∧
+    MatchSrc.notM = refNot ∧ MatchSrc.annotate = refAnnotate := by decide
 
 end TTV.Props.C07
